@@ -118,4 +118,15 @@ var props = map[string]propCfg{
 		},
 		QuickSecs: 150, ThorSecs: 2400,
 	},
+	"C20": {
+		Scenarios: []scenCfg{
+			{Name: "c20", Quick: 1500, Thorough: 120000, Batch: 40},
+		},
+		Rule: "c20: one evaluation = one simulated interactive session with a preview template over {n} {q} {} {+n} (sometimes {f}), a seeded history of cursor moves, query edits, selections, refresh/toggle/change-preview, preview(...), window changes and resizes at seeded instants (inside the 100/500 ms windows of the previewer protocol), and preview child processes of seeded behaviour (instant, slow start, incremental, endless, silent, not startable, clear-screen code, failing, forking shell); invariant at every scheduler step: at most one preview process group alive un-killed; at every settle: the command that ran last has the argv of the state at settle and the pane holds what it emitted; at exit: nothing alive un-killed, no temp file; distinct = distinct event-log hash; non-trivial = more than one preview command was started",
+		RealStub: map[string][]string{
+			"real": {"Terminal previewer (three goroutines per command, version counters, killChan)", "render loop", "replacePlaceholder", "Terminal.Loop", "LightRenderer", "Run"},
+			"stub": {"preview child processes, pipes, kill(2), process groups", "tty + VT emulator", "stdin", "clock", "goroutine scheduler"},
+		},
+		QuickSecs: 150, ThorSecs: 2400,
+	},
 }
